@@ -647,6 +647,49 @@ theorem deleted_pipe_quiesces_witness :
     (step cfgNow st1 (.wdone 0)).isNone = true ∧ allIdle st1 = true ∧ st1.dest = [] := by
   decide
 
+/-! ### record sizes (finding F52) -/
+
+theorem varintLen_mono (a b : Nat) (h : a ≤ b) : varintLen a ≤ varintLen b := by
+  unfold varintLen
+  repeat' split
+  all_goals omega
+
+/-- **The copy is longer than the source record**: with a non-empty provenance the journal record of the copied event
+has the source record's size plus the provenance bytes, plus the length prefix of the field list when the source event
+had no fields of its own (and possibly a longer prefix otherwise). -/
+theorem copy_record_grows (prov : Bytes) (e : Ev) (hp : prov ≠ []) :
+    recSize e + prov.length ≤ recSize (addProv prov e) := by
+  have hne : (e.fields ++ prov).isEmpty = false := by
+    cases h : e.fields <;> cases hq : prov <;> simp_all
+  simp only [recSize, addProv, hne, List.length_append]
+  have hm := varintLen_mono e.fields.length (e.fields.length + prov.length) (by omega)
+  split <;> simp_all <;> omega
+
+/-- exact size of the copy -/
+theorem copy_record_size (prov : Bytes) (e : Ev) (hp : prov ≠ []) :
+    recSize (addProv prov e) =
+      1 + 8 + varintLen e.msg.length + e.msg.length +
+        (varintLen (e.fields.length + prov.length) + (e.fields.length + prov.length)) := by
+  have hne : (e.fields ++ prov).isEmpty = false := by
+    cases h : e.fields <;> cases hq : prov <;> simp_all
+  simp [recSize, addProv, hne, List.length_append]
+
+/-- a source event whose record has 297 bytes (message of 286 bytes, no fields) and the provenance of `{app=a1,grp=g1}`
+(14 bytes of binary fields) -/
+def evBig : Ev := ⟨2, List.replicate 286 120, []⟩
+def prov14 : Bytes := [3, 97, 112, 112, 2, 97, 49, 3, 103, 114, 112, 2, 103, 49]
+
+set_option maxRecDepth 16384 in
+/-- **F52**: nothing in the copy path looks at the record size (the LTS copies every accepted event: `pipe_copy_inv`). A
+source record that fits `MaxRecordSize = 300` (297 bytes) is copied into a record of 312 bytes: the run ends quiescent with
+that record in the pipe partition — which the journal's readers cannot serve. -/
+theorem cex_copy_exceeds_max_record_size :
+    let st := run cfgNow (init 1 (fun _ => true) (fun _ => prov14) (fun _ => true) false)
+      ([.create, .write 0 [evA, evBig, evB], .enqueue 0, .notify] ++ copyCycle)
+    quiescent st = true ∧ recSize evBig = 297 ∧ (proj 0 st.dest).map recSize = [26, 312, 26] ∧
+      (proj 0 st.dest) = specProj st 0 := by
+  decide
+
 /-! ### non-vacuity -/
 
 /-- a run with two sources, interleaved workers and a restart, ending with both sources fully copied -/
